@@ -345,7 +345,12 @@ func ruleSubscribersTold(c *core.Ctx) {
 	}
 	// the list is emptied
 	emptied := false
-	for _, acc := range fieldAccesses(fn, sigF) {
+	var accs []fieldAccess
+	for _, f := range unitOf(c, fn) {
+		// OnTerminate itself, or a private helper it calls (detachAll)
+		accs = append(accs, fieldAccesses(f, sigF)...)
+	}
+	for _, acc := range accs {
 		if st, ok := acc.instr.(*ssa.Store); ok && acc.write {
 			switch x := core.Canon(st.Val).(type) {
 			case *ssa.Slice:
@@ -356,7 +361,9 @@ func ruleSubscribersTold(c *core.Ctx) {
 					emptied = true
 				}
 			case *ssa.Const:
-				emptied = x.Value == nil
+				if x.Value == nil {
+					emptied = true
+				}
 			case *ssa.MakeSlice:
 				emptied = true
 			}
@@ -467,9 +474,11 @@ func ruleTerminateDetaches(c *core.Ctx, lc *core.LockCache, objects, boxes *type
 		c.Fail(rule, "bus.serviceImpl.Terminate/hooks", fn.Pos(), "Terminate never runs the termination hook of the objects")
 		return
 	}
-	// fresh maps given to the fields under the exclusive lock
-	freshStore := func(fld *types.Var) *ssa.Store {
-		for _, acc := range fieldAccesses(fn, fld) {
+	// fresh maps given to the fields under the exclusive lock, by Terminate itself
+	// or by a private helper it calls (detachAll) that returns the table taken out
+	freshStoreIn := func(df *ssa.Function, fld *types.Var) *ssa.Store {
+		dlf := lc.Get(df)
+		for _, acc := range fieldAccesses(df, fld) {
 			st, ok := acc.instr.(*ssa.Store)
 			if !ok || !acc.write {
 				continue
@@ -479,13 +488,74 @@ func ruleTerminateDetaches(c *core.Ctx, lc *core.LockCache, objects, boxes *type
 					continue
 				}
 			}
-			if held, _ := lf.HeldAt(st, class, true); held {
+			if held, _ := dlf.HeldAt(st, class, true); held {
 				return st
 			}
 		}
 		return nil
 	}
-	so, sb := freshStore(objects), freshStore(boxes)
+	dfn := fn
+	var so, sb *ssa.Store
+	for _, df := range unitOf(c, fn) {
+		if o, b := freshStoreIn(df, objects), freshStoreIn(df, boxes); o != nil && b != nil {
+			dfn, so, sb = df, o, b
+			break
+		}
+	}
+	// walkedTable: the table the hooks are run on is the one loaded from the field
+	// in the critical section that replaces it
+	walkedTable := func() bool {
+		dlf := lc.Get(dfn)
+		for _, acc := range fieldAccesses(dfn, objects) {
+			ld, ok := acc.instr.(*ssa.UnOp)
+			if !ok || acc.write {
+				continue
+			}
+			if held, _ := dlf.HeldAt(ld, class, true); !(held && sameSection(dfn, ld, so, class) && core.CanReach(ld, func(x ssa.Instruction) bool { return x == ssa.Instruction(so) }) != nil) {
+				continue
+			}
+			if dfn == fn {
+				for _, u := range allUses(ld) {
+					if _, isRange := u.(*ssa.Range); isRange {
+						return true
+					}
+				}
+				continue
+			}
+			// the helper returns it, and Terminate walks what the helper returned
+			returned := false
+			for _, r := range core.Returns(dfn) {
+				for i := range r.Results {
+					if core.Canon(core.RetVal(r, i)) == ssa.Value(ld) {
+						returned = true
+					}
+				}
+			}
+			if !returned {
+				continue
+			}
+			for _, call := range core.Calls(fn) {
+				cv, ok := call.(*ssa.Call)
+				if !ok || core.StaticCallee(call) != dfn {
+					continue
+				}
+				vals := []ssa.Value{cv}
+				for _, u := range core.Referrers(cv) {
+					if ex, ok := u.(*ssa.Extract); ok {
+						vals = append(vals, ex)
+					}
+				}
+				for _, v := range vals {
+					for _, u := range allUses(v) {
+						if _, isRange := u.(*ssa.Range); isRange {
+							return true
+						}
+					}
+				}
+			}
+		}
+		return false
+	}
 	for i, h := range hooks {
 		key := fmt.Sprintf("bus.serviceImpl.Terminate/hook#%d", i+1)
 		in := h.(ssa.Instruction)
@@ -496,22 +566,7 @@ func ruleTerminateDetaches(c *core.Ctx, lc *core.LockCache, objects, boxes *type
 		case so == nil || sb == nil:
 			bad = "Terminate runs the hooks of objects that stay registered (the object and mailbox tables are not replaced under the exclusive lock): a later Remove, or the object terminating itself, runs the hook a second time, and messages are still delivered to terminated objects"
 		default:
-			// the table walked is the one that was taken out: loaded from the field in the
-			// critical section that replaces it
-			walked := false
-			for _, acc := range fieldAccesses(fn, objects) {
-				ld, ok := acc.instr.(*ssa.UnOp)
-				if !ok || acc.write {
-					continue
-				}
-				if held, _ := lf.HeldAt(ld, class, true); held && sameSection(fn, ld, so, class) && core.CanReach(ld, func(x ssa.Instruction) bool { return x == ssa.Instruction(so) }) != nil {
-					for _, u := range allUses(ld) {
-						if _, isRange := u.(*ssa.Range); isRange {
-							walked = true
-						}
-					}
-				}
-			}
+			walked := walkedTable()
 			if !walked {
 				bad = "the hooks are not run on the table that was taken out of the service under the lock"
 			}
